@@ -124,8 +124,14 @@ func imageUnits(group string, kinds []kind, n int) []unit {
 	return us
 }
 
-func scripted(group string, bytesEst int, ops ...int) unit {
-	return unit{Phase: 2, Group: group, Ops: ops, Cost: float64(bytesEst) * 5 * 100e-6}
+// scripted: a large image; its byte offsets are spread over several units
+func scripted(group string, bytesEst int, ops ...int) []unit {
+	n := bytesEst/4000 + 1
+	var us []unit
+	for i := 0; i < n; i++ {
+		us = append(us, unit{Phase: 2, Group: group, Ops: ops, Slice: i, Slices: n, Cost: float64(bytesEst) / float64(n) * 5 * 500e-6})
+	}
+	return us
 }
 
 func wr(k kind) int { return 2 * int(k) }
@@ -158,17 +164,13 @@ func buildUnits(r *vk.Run) []unit {
 		// images with buffer overflow: unsynced 32 KiB parts fill the 40 KiB head buffer, bufio flushes a record
 		// in two pieces, and a tick falls in between
 		g := "damage/scripted-large"
-		us = append(us,
-			scripted(g, 66000, wr(kPart32k), wr(kPart32k), tickCode, sy(kEndHeight)),
-			scripted(g, 46000, sy(kEndHeight), wr(kVotePeer), wr(kPart45k), tickCode, sy(kVoteOwn)),
-		)
+		us = append(us, scripted(g, 66000, wr(kPart32k), wr(kPart32k), tickCode, sy(kEndHeight))...)
+		us = append(us, scripted(g, 46000, sy(kEndHeight), wr(kVotePeer), wr(kPart45k), tickCode, sy(kVoteOwn))...)
 		if !r.Quick() {
-			us = append(us,
-				scripted(g, 33000, sy(kEndHeight), sy(kPart32k), tickCode, sy(kVoteOwn)),
-				scripted(g, 99000, wr(kPart32k), sy(kEndHeight), tickCode, wr(kPart32k), wr(kPart32k), tickCode, sy(kEndHeight)),
-				scripted(g, 46000, wr(kPart45k), sy(kEndHeight), tickCode, wr(kTimeout)),
-				scripted(g, 66000, sy(kEndHeight), tickCode, wr(kPart32k), wr(kStep), wr(kPart32k), tickCode, sy(kEndHeight), tickCode),
-			)
+			us = append(us, scripted(g, 33000, sy(kEndHeight), sy(kPart32k), tickCode, sy(kVoteOwn))...)
+			us = append(us, scripted(g, 99000, wr(kPart32k), sy(kEndHeight), tickCode, wr(kPart32k), wr(kPart32k), tickCode, sy(kEndHeight))...)
+			us = append(us, scripted(g, 46000, wr(kPart45k), sy(kEndHeight), tickCode, wr(kTimeout))...)
+			us = append(us, scripted(g, 66000, sy(kEndHeight), tickCode, wr(kPart32k), wr(kStep), wr(kPart32k), tickCode, sy(kEndHeight), tickCode)...)
 		}
 	}
 	for i := range us {
